@@ -199,3 +199,53 @@ def seed_batches(tier, base_seed, quick_runs, batch=250):
         n = batch if tier != "quick" else min(batch, quick_runs - i)
         yield [{"seed": core.run_seed(base_seed, i + j)} for j in range(n)]
         i += n
+
+
+def draw_config_any(rng, policies=(0, 1)):
+    """Every reader option varied (C07/C08/C09 style)."""
+    cfg = draw_config(rng, policies=policies, protfilters=(7, 7, 7, 0, 1, 2, 3, 4, 5, 6), parsing=(True, True, False))
+    return cfg
+
+
+def gen_mixed_frames(rng, lnk, n, cfg, counters, style=None, variant_fault=False):
+    """
+    Wires for the 'every byte stream whatsoever' properties: valid frames, frames with
+    unrestricted link faults (mutated / truncated / spliced), carriers with nested frames,
+    unrestricted noise and garbage.  Returns scenario frame dicts.
+    """
+    style = style or rng.choice(("clean", "mutated", "mutated", "garbage", "mixed", "mixed", "nested"))
+    frames = []
+    if style == "garbage":
+        for _ in range(rng.randrange(1, 4)):
+            frames.append({"kind": "garbage", "hex": device.garbage(rng).hex(), "faults": [], "note": "garbage"})
+        return frames
+    p_fault = {"clean": 0.0, "mutated": 0.5, "mixed": 0.25, "nested": 0.15}[style]
+    p_garb = {"clean": 0.0, "mutated": 0.15, "mixed": 0.3, "nested": 0.1}[style]
+    modes = modes_for(cfg["msgmode"]) if rng.random() < 0.8 else None
+    for i in range(n):
+        if rng.random() < p_garb:
+            frames.append({"kind": "garbage", "hex": device.garbage(rng, n=rng.choice((1, 2, 3, 5, 9))).hex(), "faults": [], "note": "garbage"})
+            counters.hit("fault_noise")
+        if style == "nested" and rng.random() < 0.5:
+            data, kind, note = device.carrier(rng, serial=i + 1)
+        else:
+            kind, data, note = device.frame_any(rng, serial=i + 1, variant_fault=variant_fault, modes=modes)
+        fr = {"kind": kind, "hex": data.hex(), "faults": [], "note": note}
+        if rng.random() < p_fault:
+            cur = data
+            for _ in range(rng.choice((1, 1, 1, 2, 3))):
+                flt = link.any_fault(lnk, cur)
+                fr["faults"].append(flt)
+                cur = link.apply_faults(cur, [flt])
+            if kind == "ubx" and lnk.random() < 0.3:
+                fr["faults"].append({"k": "reseal"})
+        frames.append(fr)
+    if rng.random() < p_garb:
+        frames.append({"kind": "garbage", "hex": device.garbage(rng, n=rng.choice((1, 2, 3, 5))).hex(), "faults": [], "note": "garbage"})
+    if rng.random() < 0.25 and frames and style != "clean":
+        # the link dies inside the last frame
+        last = frames[-1]
+        ln = len(link.frame_bytes(last))
+        if ln > 1:
+            last["faults"] = list(last["faults"]) + [{"k": "trunc", "len": lnk.randrange(1, ln)}]
+    return frames
